@@ -413,3 +413,101 @@ def sswu(u, A, B, Z):
     if u.sgn0() != y.sgn0():
         y = -y
     return (x, y)
+
+
+# ------------------------------------------------------------------ generic extension field GF(p)[X]/(X^d + sum mc_i X^i)
+def _ptrim(a):
+    while a and a[-1] == 0:
+        a.pop()
+    return a
+
+
+def _pdivmod(a, b, p):
+    """polynomial division over GF(p) (coefficient lists, lowest degree first); b != 0"""
+    a = _ptrim([x % p for x in a])
+    b = _ptrim([x % p for x in b])
+    q = [0] * max(1, len(a) - len(b) + 1)
+    binv = pow(b[-1], -1, p)
+    while len(a) >= len(b) and a:
+        k = len(a) - len(b)
+        c = a[-1] * binv % p
+        q[k] = c
+        for i, bc in enumerate(b):
+            a[k + i] = (a[k + i] - c * bc) % p
+        _ptrim(a)
+    return _ptrim(q), a
+
+
+def _pmul(a, b, p):
+    if not a or not b:
+        return []
+    r = [0] * (len(a) + len(b) - 1)
+    for i, x in enumerate(a):
+        if x:
+            for j, y in enumerate(b):
+                r[i + j] = (r[i + j] + x * y) % p
+    return _ptrim(r)
+
+
+def _psub(a, b, p):
+    n = max(len(a), len(b))
+    return _ptrim([((a[i] if i < len(a) else 0) - (b[i] if i < len(b) else 0)) % p for i in range(n)])
+
+
+class Fpk:
+    """element of GF(p)[X]/(m), m = X^d + sum mc[i] X^i — textbook arithmetic, proper polynomial Euclid for inverses"""
+    __slots__ = ("c", "p", "mc")
+
+    def __init__(self, c, p, mc):
+        d = len(mc)
+        c = [x % p for x in c] + [0] * (d - len(c))
+        if len(c) > d:
+            _, r = _pdivmod(c, [x % p for x in mc] + [1], p)
+            c = r + [0] * (d - len(r))
+        self.c, self.p, self.mc = c, p, tuple(mc)
+
+    def _c(self, o):
+        return o if isinstance(o, Fpk) else Fpk([o], self.p, self.mc)
+
+    def like(self, k): return Fpk([k], self.p, self.mc)
+    def coeffs(self): return list(self.c)
+    def is_zero(self): return not any(self.c)
+    def __add__(self, o): o = self._c(o); return Fpk([a + b for a, b in zip(self.c, o.c)], self.p, self.mc)
+    def __sub__(self, o): o = self._c(o); return Fpk([a - b for a, b in zip(self.c, o.c)], self.p, self.mc)
+    def __neg__(self): return Fpk([-a for a in self.c], self.p, self.mc)
+    def __eq__(self, o): o = self._c(o); return self.c == o.c
+    def __hash__(self): return hash((tuple(self.c), self.p))
+
+    def __mul__(self, o):
+        o = self._c(o)
+        return Fpk(_pmul(_ptrim(list(self.c)), _ptrim(list(o.c)), self.p) or [0], self.p, self.mc)
+
+    def inv(self):
+        """inverse by the extended Euclidean algorithm on polynomials; 0 -> 0 (inv0)"""
+        p = self.p
+        if self.is_zero():
+            return self.like(0)
+        r0, r1 = [x % p for x in self.mc] + [1], _ptrim(list(self.c))
+        s0, s1 = [], [1]
+        while r1:
+            q, r = _pdivmod(r0, r1, p)
+            r0, r1 = r1, r
+            s0, s1 = s1, _psub(s0, _pmul(q, s1, p), p)
+        # r0 = gcd (a constant when m is irreducible), s0 * self = r0 (mod m)
+        if len(r0) != 1:
+            raise ZeroDivisionError("not invertible")
+        ci = pow(r0[0], -1, p)
+        return Fpk([x * ci for x in s0] or [0], p, self.mc)
+
+    def __truediv__(self, o): return self * self._c(o).inv()
+
+    def pow(self, e):
+        r, t = self.like(1), self
+        while e > 0:
+            if e & 1:
+                r = r * t
+            t = t * t
+            e >>= 1
+        return r
+
+    def __repr__(self): return f"Fpk({self.c})"
